@@ -137,6 +137,12 @@ def sym_add(l: Any, r: Any, sign: int = 1) -> Any:
     return UNKNOWN
 
 
+class BoundOp:
+    """a bound special method used as a value: d.__getitem__, xs.__contains__, d.get"""
+    def __init__(self, kind: str, target: Any):
+        self.kind, self.target = kind, target
+
+
 class LocalFn:
     def __init__(self, node, env, owner, defaults=None):
         self.node, self.env, self.owner = node, env, owner
@@ -199,6 +205,7 @@ class Interp:
         interpreted first on the same object (its stores to self.* are visible to *fn*)."""
         results = []
         self.envs = []
+        self.fork_sites = []
         pending = [[]]
         while pending:
             if len(results) >= self.max_traces:
@@ -256,6 +263,10 @@ class Interp:
         else:
             v = True
             self.choices.append(v)
+            st = getattr(self, "cur_stmt", None)
+            if st is not None and len(self.fork_sites) < 8:
+                first = norm(st).split("\n")[0][:90]
+                self.fork_sites.append(f"{getattr(st, 'lineno', '?')}: {first}")
         self._pos += 1
         return v
 
@@ -305,6 +316,7 @@ class Interp:
             self.stmt(st, env, depth)
 
     def stmt(self, st: ast.stmt, env: dict, depth: int) -> None:
+        self.cur_stmt = st
         if isinstance(st, ast.Expr):
             v = st.value
             if isinstance(v, ast.Yield):
@@ -332,7 +344,18 @@ class Interp:
             elif _is_num(cur) and _is_num(rhs) and isinstance(st.op, ast.Div) and rhs != 0:
                 new = cur / rhs
             elif isinstance(cur, list) and isinstance(rhs, list) and isinstance(st.op, ast.Add):
-                new = cur + rhs
+                cur.extend(rhs)          # in place: every alias of the list sees the extension
+                new = cur
+            elif isinstance(cur, set) and isinstance(rhs, set) and isinstance(st.op, (ast.BitOr, ast.BitAnd, ast.Sub, ast.BitXor)):
+                if isinstance(st.op, ast.BitOr):
+                    cur |= rhs
+                elif isinstance(st.op, ast.BitAnd):
+                    cur &= rhs
+                elif isinstance(st.op, ast.Sub):
+                    cur -= rhs
+                else:
+                    cur ^= rhs
+                new = cur
             elif isinstance(cur, bool) and isinstance(rhs, bool) and isinstance(st.op, (ast.BitOr, ast.BitAnd)):
                 new = (cur or rhs) if isinstance(st.op, ast.BitOr) else (cur and rhs)
             if isinstance(st.target, ast.Name):
@@ -500,6 +523,8 @@ class Interp:
             if isinstance(e.value, ast.Name) and e.value.id == "operator" and "operator" not in env:
                 return Sym("operator." + e.attr)
             base = self.ev(e.value, env, depth)
+            if e.attr in ("__getitem__", "__contains__") and isinstance(base, (dict, list, set)):
+                return BoundOp(e.attr, base)
             if isinstance(base, Obj):
                 return base.fields.get(e.attr, UNKNOWN)
             if isinstance(base, TypeV):
@@ -532,6 +557,10 @@ class Interp:
                 return UNKNOWN
             g = e.generators[0]
             it = self.ev(g.iter, env, depth)
+            if isinstance(it, set):
+                it = sorted(it, key=repr)
+            elif isinstance(it, dict):
+                it = list(it.keys())
             if not isinstance(it, list):
                 return UNKNOWN
             d, sub = {}, dict(env)
@@ -583,6 +612,8 @@ class Interp:
                 return (l == r) if isinstance(op, ast.Eq) else (l != r)
             if isinstance(op, (ast.Lt, ast.LtE, ast.Gt, ast.GtE)) and _is_num(l) and _is_num(r):
                 return {ast.Lt: l < r, ast.LtE: l <= r, ast.Gt: l > r, ast.GtE: l >= r}[type(op)]
+            if isinstance(op, (ast.Lt, ast.LtE, ast.Gt, ast.GtE)) and isinstance(l, set) and isinstance(r, set):
+                return {ast.Lt: l < r, ast.LtE: l <= r, ast.Gt: l > r, ast.GtE: l >= r}[type(op)]     # subset tests
             if isinstance(op, (ast.In, ast.NotIn)) and isinstance(r, (list, set, dict)) and l is not UNKNOWN:
                 key = self._hashable(l) if isinstance(r, (set, dict)) else l
                 found = key in r
@@ -601,6 +632,8 @@ class Interp:
             return out
         if isinstance(e, ast.BinOp) and isinstance(e.op, (ast.Div, ast.FloorDiv, ast.Mod)):
             l, r = self.ev(e.left, env, depth), self.ev(e.right, env, depth)
+            if isinstance(e.op, ast.Mod) and hasattr(l, "model_mod") and isinstance(r, int) and not isinstance(r, bool) and r > 0:
+                return l.model_mod(r)       # a scripted draw: its residue is chosen by the model's script
             if _is_num(l) and _is_num(r):
                 if r == 0:
                     self.throw("ZeroDivisionError", e)
@@ -613,6 +646,12 @@ class Interp:
                     return SVal(a.sign * (1 if b > 0 else -1), a.tag)
             if _is_num(l) and _is_num(r):
                 return l * r
+            return UNKNOWN
+        if isinstance(e, ast.BinOp) and isinstance(e.op, (ast.BitOr, ast.BitAnd, ast.BitXor, ast.Sub)) \
+                and isinstance(self.ev(e.left, env, depth), set):
+            l, r = self.ev(e.left, env, depth), self.ev(e.right, env, depth)
+            if isinstance(r, set):
+                return {ast.BitOr: l | r, ast.BitAnd: l & r, ast.BitXor: l ^ r, ast.Sub: l - r}[type(e.op)]
             return UNKNOWN
         if isinstance(e, ast.BinOp) and isinstance(e.op, (ast.Add, ast.Sub)):
             l, r = self.ev(e.left, env, depth), self.ev(e.right, env, depth)
@@ -741,6 +780,10 @@ class Interp:
         if opname in ("le", "ge", "lt", "gt", "eq", "ne") and len(args) == 2 and all(_is_num(a) for a in args):
             import operator as _op
             return getattr(_op, opname)(args[0], args[1])
+        if opname in ("getitem", "contains") and len(args) == 2:
+            return self.apply(BoundOp("__getitem__" if opname == "getitem" else "__contains__", args[0]), [args[1]], env, depth)
+        if isinstance(c.func, ast.Name) and isinstance(env.get(c.func.id), BoundOp):
+            return self.apply(env[c.func.id], args, env, depth)
         # calling a value: a local function (closure) or a symbolic callable
         fval = None
         if isinstance(c.func, ast.Name) and isinstance(env.get(c.func.id), (LocalFn, Sym)):
@@ -804,6 +847,8 @@ class Interp:
                 elif f_ is not None:
                     return UNKNOWN
                 return d_
+            if nm == "fromkeys" and False:
+                pass
             if nm == "map" and len(args) == 2 and isinstance(args[1], (list, set)) and nm not in env:
                 return [self.apply(args[0], [x], env, depth) for x in (args[1] if isinstance(args[1], list) else sorted(args[1], key=repr))]
             if nm == "filter" and len(args) == 2 and isinstance(args[1], list) and nm not in env and args[0] is not None:
@@ -929,10 +974,35 @@ class Interp:
                     if ci.name in self.record_calls:
                         pass
                     return o
+                # a plain helper class of the repository with its own __init__: an object whose fields the constructor sets
+                if ci is not None and self.instantiate_classes and depth < self.max_depth and "__init__" in ci.methods \
+                        and not any(b.name.endswith(("Exception", "Error")) for b in self.prog.mro(ci)) \
+                        and all(k.fullname == ci.fullname or "__init__" not in k.methods for k in self.prog.mro(ci)):
+                    target = ci.methods["__init__"]
+                    o = Obj(ci.name, {}, ci.fullname)
+                    a = target.node.args
+                    names = [x.arg for x in a.posonlyargs + a.args]
+                    cenv = {names[0]: o}
+                    for p_, d in zip(names[len(names) - len(a.defaults):], a.defaults):
+                        cenv[p_] = self.ev(d, {}, depth)
+                    for p_, v in zip(names[1:], args):
+                        cenv[p_] = v
+                    for k, v in kwargs.items():
+                        cenv[k] = v
+                    self.fn_stack.append(target)
+                    try:
+                        self.call_body(target, cenv, depth + 1)
+                    finally:
+                        self.fn_stack.pop()
+                    return o
             if nm == "enumerate" and args and isinstance(args[0], list):
                 return [[i, x] for i, x in enumerate(args[0])]
             if nm == "zip" and all(isinstance(a, list) for a in args) and args:
                 return [list(t) for t in zip(*args)]
+        if isinstance(c.func, ast.Attribute) and isinstance(c.func.value, ast.Name) and c.func.value.id == "dict" and nm == "fromkeys" \
+                and "dict" not in env and 1 <= len(args) <= 2 and isinstance(args[0], (list, set, dict)):
+            keys_ = list(args[0].keys()) if isinstance(args[0], dict) else (sorted(args[0], key=repr) if isinstance(args[0], set) else args[0])
+            return {self._hashable(k): (args[1] if len(args) > 1 else None) for k in keys_}
         if isinstance(c.func, ast.Attribute) and isinstance(c.func.value, ast.Name) and c.func.value.id in ("heapq", "math", "itertools") \
                 and c.func.value.id not in env:
             fake = ast.copy_location(ast.Call(func=ast.Name(id=nm, ctx=ast.Load()), args=c.args, keywords=c.keywords), c)
@@ -1081,6 +1151,15 @@ def _install():
         """call a callable value (closure, lambda, symbolic callable) on interpreted arguments"""
         if isinstance(fv, LocalFn):
             return self.call_local(fv, args, {}, depth, env)
+        if isinstance(fv, BoundOp) and len(args) == 1:
+            if fv.kind == "__getitem__":
+                node = ast.Subscript(value=ast.Name(id="__b", ctx=ast.Load()), slice=ast.Name(id="__i", ctx=ast.Load()), ctx=ast.Load())
+                return self.ev(ast.fix_missing_locations(node), {"__b": fv.target, "__i": args[0]}, depth)
+            if fv.kind == "__contains__":
+                node = ast.Compare(left=ast.Name(id="__i", ctx=ast.Load()), ops=[ast.In()], comparators=[ast.Name(id="__b", ctx=ast.Load())])
+                return self.ev(ast.fix_missing_locations(node), {"__b": fv.target, "__i": args[0]}, depth)
+        if isinstance(fv, Sym) and fv.tag in ("operator.getitem", "operator.contains") and len(args) == 2:
+            return self.apply(BoundOp("__getitem__" if fv.tag.endswith("getitem") else "__contains__", args[0]), [args[1]], env, depth)
         if isinstance(fv, Sym) and self.sym_result is not None:
             return self.sym_result(fv, args)
         return UNKNOWN
@@ -1192,6 +1271,8 @@ def _install():
     Interp.prelude_same_object = True
     Interp.strict_index = False
     Interp.strict_keys = False
+    Interp.fork_sites = []
+    Interp.instantiate_classes = False
     Interp.while_cap = 3
     Interp.prelude_len = 0
 
@@ -1207,7 +1288,10 @@ def _is_num(v: Any) -> bool:
 
 
 def _is_dataclass(ci) -> bool:
-    from .frontend import decorators
+    """dataclasses and typing.NamedTuple classes: instances are records of their annotated fields"""
+    from .frontend import decorators, dotted as _d
+    if any((_d(b) or "").split(".")[-1] == "NamedTuple" for b in ci.node.bases):
+        return True
     return any(d.split(".")[-1] == "dataclass" for d in decorators(ci.node))
 
 
